@@ -371,11 +371,12 @@ pub mod __verif {
     pub fn request_clear(req: &mut Request) {
         req.clear()
     }
-    pub async fn request_read(
-        req:    Pin<&mut Request>,
-        stream: &mut (impl crate::__rt__::AsyncRead + Unpin),
-    ) -> Result<Option<()>, Response> {
-        req.read(stream).await
+    /// the future of the real `Request::read`, not wrapped in another `async` state machine
+    pub fn request_read<'a>(
+        req:    Pin<&'a mut Request>,
+        stream: &'a mut (impl crate::__rt__::AsyncRead + Unpin),
+    ) -> impl std::future::Future<Output = Result<Option<()>, Response>> + 'a {
+        req.read(stream)
     }
     pub fn request_buf(req: &mut Request) -> &mut [u8; BUF_SIZE] {
         &mut *req.__buf__
@@ -405,16 +406,20 @@ pub mod __verif {
     pub fn request_raw_params(req: &Request) -> (usize, [(usize, usize); 2]) {
         req.path.__verif_raw_params()
     }
-    pub async fn read_payload(
-        stream:        &mut (impl crate::__rt__::AsyncRead + Unpin),
-        remaining_buf: &[u8],
+    pub fn read_payload<'a>(
+        stream:        &'a mut (impl crate::__rt__::AsyncRead + Unpin),
+        remaining_buf: &'a [u8],
         size:          usize,
-    ) -> CowSlice {
-        Request::__verif_read_payload(stream, remaining_buf, size).await
+    ) -> impl std::future::Future<Output = CowSlice> + 'a {
+        Request::__verif_read_payload(stream, remaining_buf, size)
     }
 
-    pub async fn response_send(res: Response, conn: &mut (impl crate::__rt__::AsyncWrite + Unpin)) {
-        let _ = res.send(conn).await;
+    /// the future of the real `Response::send`, not wrapped in another `async` state machine
+    pub fn response_send<'a>(
+        res:  Response,
+        conn: &'a mut (impl crate::__rt__::AsyncWrite + Unpin),
+    ) -> impl std::future::Future<Output = impl Sized> + 'a {
+        res.send(conn)
     }
     pub fn response_complete(res: &mut Response) {
         res.complete()
